@@ -70,11 +70,12 @@ type world struct {
 	cnts  map[int][]byte
 	bases map[int][]byte
 	cells map[int][]byte // the real payload buffers (nil slice = nil payload)
+	bigs  map[int][]byte // the larger array a payload buffer is a view of (absent: no spare capacity)
 	held  []byte         // the last returned MAC slice: the caller owns it, has written into it, and keeps it
 }
 
 func newWorld(rng *rand.Rand, w *ev.Writer) *world {
-	return &world{rng: rng, w: w, keys: map[int][]byte{}, cnts: map[int][]byte{}, bases: map[int][]byte{}, cells: map[int][]byte{}}
+	return &world{rng: rng, w: w, keys: map[int][]byte{}, cnts: map[int][]byte{}, bases: map[int][]byte{}, cells: map[int][]byte{}, bigs: map[int][]byte{}}
 }
 
 func (s *world) material(m map[int][]byte, id, n int) []byte {
@@ -99,6 +100,7 @@ func (s *world) material(m map[int][]byte, id, n int) []byte {
 
 func (s *world) reset() {
 	s.cells = map[int][]byte{}
+	s.bigs = map[int][]byte{}
 	s.held = nil
 	s.w.Emit(blank("TraceReset"))
 }
@@ -117,6 +119,20 @@ func (s *world) do(o HOp) {
 				p = ev.Bytes(o.DataB)
 			} else {
 				p = append([]byte{}, s.material(s.bases, o.Pat, o.Len)[:o.Len]...)
+			}
+			// two payload buffers out of three are VIEWS of a larger array (a PDU inside a receive buffer) with non-zero octets
+			// behind them, the others have no spare capacity at all; nothing behind the payload is ever read or written
+			if h := len(p)*7 + o.Cell + o.Pat; h%3 != 0 {
+				big := make([]byte, len(p)+24)
+				copy(big, p)
+				for i := len(p); i < len(big); i++ {
+					big[i] = 0xA5
+				}
+				p = big[:len(p)]
+				s.bigs[o.Cell] = big
+			} else {
+				p = append(make([]byte, 0, len(p)), p...)
+				delete(s.bigs, o.Cell)
 			}
 			s.cells[o.Cell] = p
 			e.Before, e.After = ev.Ints(p), ev.Ints(p)
@@ -156,6 +172,17 @@ func (s *world) do(o HOp) {
 		}
 	})
 	e.After = ev.Ints(buf)
+	if big, ok := s.bigs[o.Cell]; ok && buf != nil {
+		for i := len(buf); i < len(big); i++ {
+			if big[i] != 0xA5 { // written behind the payload: the caller's buffer as it is now, sentinel region included
+				e.After = ev.Ints(big)
+				for j := len(buf); j < len(big); j++ {
+					big[j] = 0xA5
+				}
+				break
+			}
+		}
+	}
 	e.KeyAfter = ev.Ints(key[:])
 	e.MacNil = mac == nil
 	e.Mac = ev.Ints(mac)
